@@ -25,6 +25,9 @@ type Config struct {
 	// atomic steps), "all", "none".
 	Hooks    string              `json:"hooks,omitempty"`
 	TunnelMD map[string][]string `json:"tunnelMD,omitempty"`
+	// Icept: the tunnel-opening call passes through a client stream interceptor that adds a
+	// metadata key (as grpc.WithChainStreamInterceptor / grpchan.InterceptClientConn would)
+	Icept bool `json:"icept,omitempty"`
 	// KeepSending: the scripted applications go on sending after a send failed (illegal
 	// applications, for the shape-enforcement scenarios).
 	KeepSending bool `json:"keepSending,omitempty"`
